@@ -252,6 +252,11 @@ func init() {
 			}
 		}
 		out = append(out, Job{Pkg: "geometry", Harness: "H_Search_Moved", Params: []int{4, 2, 0, 0}, Timeout: 60, Combine: true, NoCover: true})
+		// S-template: concrete layouts with the real constants, symbolic query rectangle
+		for _, t := range [][3]int{{0, 257, 2}, {1, 300, 2}, {2, 257, 2}, {2, 257, 1}, {0, 256, 2}, {0, 258, 2}} {
+			out = append(out, Job{Pkg: "geometry", Harness: "H_Search_Template", Params: []int{t[0], t[1], t[2]}, Timeout: 120, Unwind: 600, NoCover: t[1] != 257,
+				Note: "S-template: concrete layout, real node constants (multi-level trees, depth-limit buckets, 2-byte item encodings), every query rectangle"})
+		}
 		out = append(out, searchShapeJobs(tier)...)
 		return out
 	}
@@ -384,6 +389,15 @@ func apiJobs(tier string) []Job {
 	for i, pr := range pairs {
 		params := append(append([]int{0}, ringParams(pr[0])...), ringParams(pr[1])...)
 		out = append(out, Job{Pkg: "geometry", Harness: "H_API_PolyPoly", Params: params, Timeout: 120, Scale: true, Contracts: c, NoCover: i > 0})
+	}
+	// inner shapes with >= 16 points (bounding-rectangle shortcut of ringContainsRing) against a notched outer ring
+	notched := []ipt{{0, 0}, {10, 0}, {10, 8}, {6, 8}, {5, 2}, {4, 8}, {0, 8}}
+	round16 := []ipt{{2, 0}, {3, 0}, {4, 0}, {5, 0}, {6, 1}, {6, 2}, {6, 3}, {5, 4}, {4, 4}, {3, 4}, {2, 4}, {1, 4}, {0, 3}, {0, 2}, {0, 1}, {1, 0}}
+	{
+		params := append(append([]int{0}, ringParams(notched)...), ringParams(round16)...)
+		out = append(out, Job{Pkg: "geometry", Harness: "H_API_PolyPoly", Params: params, Timeout: 120, Scale: true, Contracts: c, NoCover: true})
+		params = append(append([]int{0}, ringParams(notched)...), ringParams(round16)...)
+		out = append(out, Job{Pkg: "geometry", Harness: "H_API_PolyLineT", Params: params, Timeout: 120, Scale: true, Contracts: c})
 	}
 	for i, r := range []([]ipt){tri, curatedRings[0], curatedRings[1]} {
 		params := append([]int{0, 1, 1}, ringParams(r)...)
